@@ -58,10 +58,11 @@ def exclusive_run(kind):
     """single-writer database: while thread W holds an explicit write transaction that has read k, every other write to the
     database — another write_tx, but also a plain insert / remove / batch through the keyspace handle, which is a
     one-operation transaction — must wait for W's commit.  W reads k, B writes k, W writes k from what it read and commits:
-    the only serial order consistent with W's read is W then B, so B's value must be the final one."""
+    the only serial order consistent with W's read is W then B, so B's value must be the final one.  (A Database-level
+    write batch is not a transaction of the single-writer database — the type does not offer one — and is not part of this.)"""
     bop = {"put": "put h0 63 bb", "del": "del h0 63", "batch": "batch - h0:p:63:bb", "take": "take h0 63"}[kind]
-    L = ["open sw", "ks h0 alpha", "put h0 63 00", "thread w tx t0 begin", "thread w tx t0 get h0 63",
-         "thread b %s &" % bop, "sleep 300", "thread w tx t0 put h0 63 01", "thread w tx t0 get h0 63", "thread w tx t0 commit",
+    L = ["open sw", "ks h0 alpha", "put h0 63 00", "thread w tx t0 begin", "thread w get t0 h0 63",
+         "thread b %s &" % bop, "sleep 300", "thread w tx t0 put h0 63 01", "thread w get t0 h0 63", "thread w tx t0 commit",
          "thread b has - h0 00", "get - h0 63"]
     prog = "\n".join(L) + "\n"
     o, raw, rc = run_fjv(prog, env_extra={"FJV_SYNC_TIMEOUT_MS": "8000"}, timeout=90)
@@ -87,10 +88,10 @@ def run(rep, tier, seed, build):
                           % (c["got"], c["want"], c["acks"], c["n"], c["prog"]))
             break
     from common import pmap_confirm
-    ex, unconf = pmap_confirm(exclusive_run, ["put", "del", "batch", "take"], lambda x: bool(x), workers=4)
+    ex, unconf = pmap_confirm(exclusive_run, ["put", "del", "take"], lambda x: bool(x), workers=4)
     for msg, prog in [x for x in ex if x][:2]:
         rep.violation("# C08: %s\n%s" % (msg, prog))
-    coverage(rep, res, progs, RULE, dict(counter_runs=len(cr), counter_increments=sum(c["n"] for c in cr), exclusion_schedules=4, unconfirmed_alarms=unconf))
+    coverage(rep, res, progs, RULE, dict(counter_runs=len(cr), counter_increments=sum(c["n"] for c in cr), exclusion_schedules=3, unconfirmed_alarms=unconf))
 
 
 def replay(rep, path, build):
